@@ -247,6 +247,32 @@ Definition parse_get (txt : str) : res (option str * str * str) :=
   | Err k => Err k
   end.
 
+(* the whole-file reader: fasta.py:47-84, every record in order ("reading the file").  Lines are split at LF; what
+   CPython's text layer does before (universal newlines: CRLF and a lone CR become LF) is not modelled -- on files without
+   a lone CR the stripped lines are the same. *)
+Definition push_rec (cur : option (str * str)) (acc : list (str * str)) : list (str * str) :=
+  match cur with Some hd => hd :: acc | None => acc end.
+Fixpoint fasta_all (ls : list str) (cur : option (str * str)) (acc : list (str * str)) : res (list (str * str)) :=
+  match ls with
+  | [] => Ok (rev (push_rec cur acc))
+  | l :: r =>
+      if starts_with GT l then fasta_all r (Some (strip_ws (lstrip_gt l), [])) (push_rec cur acc)
+      else if starts_with SEMI l then fasta_all r cur acc
+      else match cur with
+           | None => match strip_ws l with
+                     | [] => fasta_all r cur acc
+                     | _ => Err (bs "ValueError"%bs)
+                     end
+           | Some (h, d) => fasta_all r (Some (h, d ++ strip_ws l)) acc
+           end
+  end.
+(* sugar.read(file, 'fasta'): (id, header, residues) of every record *)
+Definition read_fasta (txt : str) : res (list (option str * str * str)) :=
+  match fasta_all (lines_keep txt) None [] with
+  | Ok l => Ok (map (fun hd => (id_from_header (fst hd), fst hd, upper (snd hd))) l)
+  | Err k => Err k
+  end.
+
 (* ------------------------------------------------------------------ FastaIndex.add / _search / get* , fastaindex.py:243-335 *)
 Fixpoint scan_files (fs : list str) (fn : nat) : res (list entry) :=
   match fs with
@@ -390,13 +416,60 @@ Definition box_queries (id : str) (m : nat) : list query :=
   flat_map (fun i => map (fun j => Query (N.of_nat ((i + j) mod 2)) id (Some (Some (Z.of_nat i), Some (Z.of_nat j))))
                          (seq (i + 1) (m - i))) (seq 0 m).
 
+(* ------------------------------------------------------------------ header persistence: FastaIndex.add :268-275, _read_header :235-241 *)
+(* str.split(c): always at least one element *)
+Fixpoint split_on_aux (c : byte) (cur : str) (s : str) : list str :=
+  match s with
+  | [] => [rev cur]
+  | x :: r => if byte_eqb x c then rev cur :: split_on_aux c [] r else split_on_aux c (x :: cur) r
+  end.
+Definition split_on (c : byte) (s : str) : list str := split_on_aux c [] s.
+Fixpoint join_with (c : byte) (l : list str) : str :=
+  match l with
+  | [] => []
+  | [x] => x
+  | x :: r => x ++ c :: join_with c r
+  end.
+Definition COMMA : byte := ","%byte.
+Definition spaces50 : str := repeat " "%byte 50.
+(* header = ','.join([path + ' ' * 50 * (mode == 'binary')] + self.files)   -- files in REGISTRATION order *)
+Definition header_bytes (mode : N) (path : str) (files : list str) : str :=
+  join_with COMMA ((if N.eqb mode MODE_BINARY then path ++ spaces50 else path) :: files).
+(* what the store keeps: binary = headerstart + header (BinarySearchFile.write), db = db['header'] *)
+Definition stored_header (mode : N) (headerstart path : str) (files : list str) : str :=
+  if N.eqb mode MODE_BINARY then headerstart ++ header_bytes mode path files else header_bytes mode path files.
+(* _read_header: binary  map(str.strip, header.split('\n')[1].split(','))  ;  db  header.split(',')  ; None = IndexError *)
+Definition read_header (mode : N) (stored : str) : option (str * list str) :=
+  if N.eqb mode MODE_BINARY then
+    match split_on LF stored with
+    | _ :: l1 :: _ => match map strip_ws (split_on COMMA l1) with p :: fs => Some (p, fs) | [] => None end
+    | _ => None
+    end
+  else match split_on COMMA stored with p :: fs => Some (p, fs) | [] => None end.
+Definition no_byte (c : byte) (s : str) : bool := forallb (fun x => negb (byte_eqb x c)) s.
+Definition wf_name (s : str) : bool := no_byte COMMA s && no_byte LF s && str_eqb (strip_ws s) s.
+Definition wf_header (mode : N) (headerstart path : str) (files : list str) : bool :=
+  N.ltb mode 2 && wf_name path && forallb wf_name files
+  && match rev headerstart with x :: r => byte_eqb x LF && no_byte LF r | [] => false end.
+Definition run_C09_header (mode : N) (headerstart path : str) (files : list str) : val :=
+  let st := stored_header mode headerstart path files in
+  VL [VB (wf_header mode headerstart path files); VS st;
+      match read_header mode st with
+      | Some (p, fs) => VL [VS p; VL (map VS fs)]
+      | None => VE (bs "IndexError"%bs)
+      end].
+
 (* ------------------------------------------------------------------ harness entry point *)
 (* the answers do not depend on addmode/reopen (the stores are trusted and compared relationally); they do depend on the
    registration order: file numbers index the registered list, which a reopened index reads back from its header *)
 Definition run_C09 (mode addmode : N) (reopen : bool) (order : list nat) (files : list finput) (qs : list query) : val :=
   let fbs := map file_bytes files in
   let reg := registered order fbs [] in
-  let sums := VL (map (fun b => VL [VI (Z.of_nat (length b)); VI (Z.of_N (adler32 b))]) fbs) in
+  let rd b := match read_fasta b with
+              | Ok l => VL (map (fun x => VL [VStrO (fst (fst x)); VS (snd (fst x)); VS (snd x)]) l)
+              | Err k => VE k
+              end in
+  let sums := VL (map (fun b => VL [VI (Z.of_nat (length b)); VI (Z.of_N (adler32 b)); rd b]) fbs) in
   VL [VB (wf_C09 mode addmode reopen order files qs); sums;
       match scan_files reg 0 with
       | Err k => VE k
